@@ -156,10 +156,16 @@ def default_policy(caller, callee, cj):
     return len(cj['blocks']) <= 150
 
 
-def inlined_body(facts, body, policy=default_policy, depth=3):
-    key = ('inl', body.path)
+def inlined_body(facts, body, policy=default_policy, depth=3, extra=()):
+    """extra: vocabulary functions that are spliced in as well (rules that define a step by its effect, not by the name of the
+    helper that performs it)"""
+    key = ('inl', body.path, tuple(sorted(extra)))
     cache = facts.__dict__.setdefault('_inl_cache', {})
     if key not in cache:
-        j = inline_json(facts, body.j, policy, depth, frozenset([body.path]))
+        pol = policy
+        if extra:
+            ex = set(extra)
+            pol = lambda caller, callee, cj: callee in ex or policy(caller, callee, cj)
+        j = inline_json(facts, body.j, pol, depth, frozenset([body.path]))
         cache[key] = Body(j, facts) if j.get('inlined') else body
     return cache[key]
